@@ -61,7 +61,11 @@ pub fn monitor_excludes() -> Vec<(usize, usize)> {
         real(b"openat64\0", &REAL_OPENAT64);
     }
     let a = |x: &AtomicU64| (x as *const AtomicU64 as usize, 8usize);
-    vec![a(&GETENV_CALLS), a(&RELATIVE_OPENS), a(&ALL_OPENS), a(&REAL_OPEN64), a(&REAL_OPEN), a(&REAL_OPENAT), a(&REAL_OPENAT64)]
+    unsafe {
+        real(b"write\0", &REAL_WRITE);
+        real(b"writev\0", &REAL_WRITEV);
+    }
+    vec![a(&GETENV_CALLS), a(&RELATIVE_OPENS), a(&ALL_OPENS), a(&REAL_OPEN64), a(&REAL_OPEN), a(&REAL_OPENAT), a(&REAL_OPENAT64), a(&STD_STREAM_WRITES), a(&REAL_WRITE), a(&REAL_WRITEV), a(&MID_PROBE), a(&MID_CHANGES), a(&MID_PROBES)]
 }
 
 unsafe fn note_open(path: *const libc::c_char) {
@@ -130,6 +134,66 @@ pub unsafe extern "C" fn openat64(dirfd: libc::c_int, path: *const libc::c_char,
     }
     let f: F = std::mem::transmute(p);
     f(dirfd, path, flags, mode)
+}
+
+/// number of write(2)/writev(2) calls on the standard streams (a library that prints uses process-wide streams and their lock)
+pub static STD_STREAM_WRITES: AtomicU64 = AtomicU64::new(0);
+static REAL_WRITE: AtomicU64 = AtomicU64::new(0);
+static REAL_WRITEV: AtomicU64 = AtomicU64::new(0);
+
+#[no_mangle]
+pub unsafe extern "C" fn write(fd: libc::c_int, buf: *const libc::c_void, n: libc::size_t) -> libc::ssize_t {
+    if fd == 1 || fd == 2 {
+        STD_STREAM_WRITES.fetch_add(1, Ordering::Relaxed);
+    }
+    type F = unsafe extern "C" fn(libc::c_int, *const libc::c_void, libc::size_t) -> libc::ssize_t;
+    let p = real(b"write\0", &REAL_WRITE);
+    if p == 0 {
+        return -1;
+    }
+    let f: F = std::mem::transmute(p);
+    f(fd, buf, n)
+}
+
+#[no_mangle]
+pub unsafe extern "C" fn writev(fd: libc::c_int, iov: *const libc::iovec, n: libc::c_int) -> libc::ssize_t {
+    if fd == 1 || fd == 2 {
+        STD_STREAM_WRITES.fetch_add(1, Ordering::Relaxed);
+    }
+    type F = unsafe extern "C" fn(libc::c_int, *const libc::iovec, libc::c_int) -> libc::ssize_t;
+    let p = real(b"writev\0", &REAL_WRITEV);
+    if p == 0 {
+        return -1;
+    }
+    let f: F = std::mem::transmute(p);
+    f(fd, iov, n)
+}
+
+/// Mid-operation probe: the injected readers are user code that runs INSIDE an operation; they compare the monitored
+/// memory with the snapshot taken before the operation, so that global state which an operation changes and restores
+/// before returning (a swapped panic hook, a lock, a flag) is seen while it is changed.
+pub struct MidProbe {
+    pub regions: *const Regions,
+    pub snap: *const Vec<u8>,
+    pub exclude: *const Vec<(usize, usize)>,
+}
+static MID_PROBE: AtomicU64 = AtomicU64::new(0);
+pub static MID_CHANGES: AtomicU64 = AtomicU64::new(0);
+pub static MID_PROBES: AtomicU64 = AtomicU64::new(0);
+
+fn probe_mid_operation() {
+    let p = MID_PROBE.load(Ordering::Relaxed);
+    if p == 0 {
+        return;
+    }
+    MID_PROBES.fetch_add(1, Ordering::Relaxed);
+    unsafe {
+        let mp = &*(p as *const MidProbe);
+        let changed = (*mp.regions).diff(&*mp.snap, &*mp.exclude);
+        if !changed.is_empty() {
+            MID_CHANGES.fetch_add(1, Ordering::Relaxed);
+        }
+    }
 }
 
 // ------------------------------------------------------------------------------------------ ambient process state
@@ -287,6 +351,7 @@ impl Regions {
 // ------------------------------------------------------------------------------------------ shared values and ops
 
 fn vfs_multi(path: &str) -> Result<Vec<u8>, Box<dyn std::error::Error + Send + Sync + 'static>> {
+    probe_mid_operation();
     match path {
         "/primary/Zone" => Ok(footer_file(b'2', b"<+01>-1")),
         "/secondary/Zone" => Ok(footer_file(b'2', b"<-01>1")),
@@ -298,12 +363,14 @@ fn vfs_multi(path: &str) -> Result<Vec<u8>, Box<dyn std::error::Error + Send + S
 }
 
 fn vfs_paris(path: &str) -> Result<Vec<u8>, Box<dyn std::error::Error + Send + Sync + 'static>> {
+    probe_mid_operation();
     match path {
         "/etc/localtime" | "/usr/share/zoneinfo/Home" => Ok(footer_file(b'2', b"CET-1CEST,M3.5.0,M10.5.0/3")),
         _ => Err("no such file".into()),
     }
 }
 fn vfs_tokyo(path: &str) -> Result<Vec<u8>, Box<dyn std::error::Error + Send + Sync + 'static>> {
+    probe_mid_operation();
     match path {
         "/etc/localtime" | "/usr/share/zoneinfo/Home" => Ok(footer_file(b'2', b"JST-9")),
         _ => Err("no such file".into()),
@@ -457,7 +524,8 @@ pub fn ops() -> Vec<Op> {
         op("default reader TST-5", |_| d(TimeZone::from_posix_tz("TST-5").map_err(|e| e.to_string()))),
         op("default reader rule", |_| d(TimeZone::from_posix_tz("EST5EDT,M3.2.0,M11.1.0").map_err(|e| e.to_string()))),
         op("default reader missing", |_| d(TimeZone::from_posix_tz(":Nope3/Nothing").map_err(|e| e.to_string()))),
-        op("failing reader rule", |_| d(TimeZoneSettings::new(&["/zoneinfo"], |_| Err("no file system".into())).parse_posix_tz("TST-5").map_err(|e| e.to_string()))),
+        op("failing reader rule", |_| d(TimeZoneSettings::new(&["/zoneinfo"], |_| { probe_mid_operation(); Err("no file system".into()) }).parse_posix_tz("TST-5").map_err(|e| e.to_string()))),
+        op("denied reader rule", |_| d(TimeZoneSettings::new(&["/zoneinfo", "/other"], |_| { probe_mid_operation(); Err(Box::new(std::io::Error::from(std::io::ErrorKind::PermissionDenied))) }).parse_posix_tz("EST5EDT,M3.2.0,M11.1.0").map_err(|e| e.to_string()))),
         // ambient process state the subject must not depend on
         Op { name: "AMBIENT chdir decoys", run: |_| { if let Some(p) = DECOYS.get() { let _ = std::env::set_current_dir(p); } String::new() }, clock: false, perturb: true },
         Op { name: "AMBIENT chdir /", run: |_| { let _ = std::env::set_current_dir("/"); String::new() }, clock: false, perturb: true },
@@ -600,9 +668,16 @@ pub fn run(args: &Args) -> i32 {
             }
             let env_before = GETENV_CALLS.load(Ordering::Relaxed);
             let rel_before = RELATIVE_OPENS.load(Ordering::Relaxed);
+            let wr_before = STD_STREAM_WRITES.load(Ordering::Relaxed);
+            let mid_before = MID_CHANGES.load(Ordering::Relaxed);
             regions.snapshot(&mut snap);
+            let mp = MidProbe { regions: &regions, snap: &snap, exclude: &exclude };
+            MID_PROBE.store(&mp as *const MidProbe as u64, Ordering::Relaxed);
             let out = std::panic::catch_unwind(std::panic::AssertUnwindSafe(|| (op.run)(&shared)));
+            MID_PROBE.store(0, Ordering::Relaxed);
             let changed = regions.diff(&snap, &exclude);
+            let wr_after = STD_STREAM_WRITES.load(Ordering::Relaxed);
+            let mid_after = MID_CHANGES.load(Ordering::Relaxed);
             let env_after = GETENV_CALLS.load(Ordering::Relaxed);
             let rel_after = RELATIVE_OPENS.load(Ordering::Relaxed);
             let case = || json!({"kind":"history","ops":h.iter().map(|&k| ops[k].name).collect::<Vec<_>>(),"indices":h,"failing_position":pos,"run_alone_digests":h.iter().map(|&k| format!("{:016x}", alone[k])).collect::<Vec<_>>()});
@@ -623,6 +698,12 @@ pub fn run(args: &Args) -> i32 {
             }
             if env_after != env_before {
                 rec.violation("environment_read_monitor", case(), json!("no getenv call during an operation"), json!({"getenv_calls": env_after - env_before}));
+            }
+            if wr_after != wr_before {
+                rec.violation("standard_stream_monitor", case(), json!("no write to the process-wide standard output / error streams"), json!({"writes": wr_after - wr_before}));
+            }
+            if mid_after != mid_before {
+                rec.violation("global_write_monitor_mid_operation", case(), json!("no byte of the executable's .data/.bss/TLS differs from its pre-operation value while the injected reader runs"), json!({"probes_that_saw_a_change": mid_after - mid_before}));
             }
             if rel_after != rel_before {
                 rec.violation("relative_open_monitor", case(), json!("no file is opened through a path relative to the current directory"), json!({"relative_opens": rel_after - rel_before}));
@@ -713,13 +794,13 @@ pub fn run(args: &Args) -> i32 {
     rec.sub("monitor_selftest", selftest.clone());
     reset_ambient();
     remove_decoys();
-    if selftest["static_write_seen"] != true || selftest["tls_write_seen"] != true || selftest["getenv_seen"] != true || selftest["relative_open_seen"] != true || selftest["absolute_open_not_flagged"] != true {
+    if selftest["static_write_seen"] != true || selftest["tls_write_seen"] != true || selftest["getenv_seen"] != true || selftest["relative_open_seen"] != true || selftest["absolute_open_not_flagged"] != true || selftest["stderr_write_seen"] != true || selftest["mid_operation_probes_run"].as_u64().unwrap_or(0) == 0 {
         eprintln!("MACHINERY: monitor self-test failed: {selftest}");
         return 4;
     }
     rec.add(steps, histories - n as u64);
     rec.add_model(histories, steps, steps);
-    rec.set_rule("explored object = tree of operation histories (no deduplication possible: the subject exposes no state): every sequence of <= 3 steps over a 48-letter alphabet = 40 operations chosen to collide + 8 changes of ambient process state (current directory with decoy files, errno, TZ/TZDIR set at run time) + all length-4 histories over a 23-letter subset (thorough: + length 5 over 14 letters); after every operation: result digest == run-alone digest (fresh process, 6 environments: TZ/TZDIR, decoy current directory, initial errno), no changed byte in .data/.bss/TLS of the executable, no getenv call, no file opened through a relative path, raw bytes of shared values unchanged. non-trivial = histories of length >= 2");
+    rec.set_rule("explored object = tree of operation histories (no deduplication possible: the subject exposes no state): every sequence of <= 3 steps over a 49-letter alphabet = 41 operations chosen to collide + 8 changes of ambient process state (current directory with decoy files, errno, TZ/TZDIR set at run time) + all length-4 histories over a 23-letter subset (thorough: + length 5 over 14 letters); after every operation: result digest == run-alone digest (fresh process, 6 environments: TZ/TZDIR, decoy current directory, initial errno), no changed byte in .data/.bss/TLS of the executable, no getenv call, no file opened through a relative path, no write to the standard streams, raw bytes of shared values unchanged; the injected readers repeat the memory comparison in the middle of the operation. non-trivial = histories of length >= 2");
     rec.set_exhaustive(true);
     rec.outcome(&format!("{} distinct results", distinct_results.len()));
     rec.outcome("run-alone");
@@ -754,7 +835,14 @@ fn monitor_selftest(regions: &Regions, exclude: &[(usize, usize)]) -> Value {
     let a1 = ALL_OPENS.load(Ordering::Relaxed);
     let _ = std::fs::read("/tzrs-verif-selftest-absolute-path-that-does-not-exist");
     let s5 = RELATIVE_OPENS.load(Ordering::Relaxed) == r1 && ALL_OPENS.load(Ordering::Relaxed) > a1;
-    json!({"static_write_seen": s1, "tls_write_seen": s2, "getenv_seen": s3, "relative_open_seen": s4, "absolute_open_not_flagged": s5})
+    let w0 = STD_STREAM_WRITES.load(Ordering::Relaxed);
+    eprint!("");
+    let _ = std::io::Write::write(&mut std::io::stderr(), b"");
+    unsafe {
+        libc::write(2, b"".as_ptr() as *const libc::c_void, 0);
+    }
+    let s6 = STD_STREAM_WRITES.load(Ordering::Relaxed) > w0;
+    json!({"static_write_seen": s1, "tls_write_seen": s2, "getenv_seen": s3, "relative_open_seen": s4, "absolute_open_not_flagged": s5, "stderr_write_seen": s6, "mid_operation_probes_run": MID_PROBES.load(Ordering::Relaxed)})
 }
 
 pub fn replay(case: &Value, args: &Args) -> i32 {
@@ -791,8 +879,13 @@ pub fn replay(case: &Value, args: &Args) -> i32 {
             regions.snapshot(&mut snap);
             let e0 = GETENV_CALLS.load(Ordering::Relaxed);
             let r0 = RELATIVE_OPENS.load(Ordering::Relaxed);
+            let w0 = STD_STREAM_WRITES.load(Ordering::Relaxed);
+            let m0 = MID_CHANGES.load(Ordering::Relaxed);
+            let mp = MidProbe { regions: &regions, snap: &snap, exclude: &exclude };
+            MID_PROBE.store(&mp as *const MidProbe as u64, Ordering::Relaxed);
             v.push(digest_of(&(ops[i].run)(&shared)));
-            if !regions.diff(&snap, &exclude).is_empty() || GETENV_CALLS.load(Ordering::Relaxed) != e0 || RELATIVE_OPENS.load(Ordering::Relaxed) != r0 {
+            MID_PROBE.store(0, Ordering::Relaxed);
+            if !regions.diff(&snap, &exclude).is_empty() || GETENV_CALLS.load(Ordering::Relaxed) != e0 || RELATIVE_OPENS.load(Ordering::Relaxed) != r0 || STD_STREAM_WRITES.load(Ordering::Relaxed) != w0 || MID_CHANGES.load(Ordering::Relaxed) != m0 {
                 mon = true;
             }
         }
